@@ -266,7 +266,7 @@ def check_valid(case, cc):
         _d, m_ = GL.build_lis_file(lis_with_many_records(case['model'], case['model']['many']))
         lens = [pr[4] for prs in m_['phys']['prs'] for pr in prs]
         first_odd = next((i for i, n_ in enumerate(lens) if n_ % 2), None)
-        late_pad = first_odd is not None and first_odd >= 100
+        late_pad = first_odd is not None and first_odd >= 99       # the padding after the 100th record is the first the scan of 100 records does not see
     cc.cls('valid-LIS-first-padded-record-after-the-100th', late_pad)
     if res != exp and late_pad and not res and case['model']['cfg']['tif'] == 'none':
         # known form: the padding option is settled on the first 100 physical records (all of even length here: every option
